@@ -386,6 +386,23 @@ def r_stats_at(rep, prog):
               "a per-frame or per-huge-frame query reports a non-zero count in a field it does not compute", b.span)
     rep.check(base_ok, rule, "stats_at|base|result", "free_frames = (entry free && bit zero) as usize, else 0",
               "the base-frame result is not the guarded bit test", b.span)
+    # ... and that is the only answer of the per-huge arm (no early `Stats::default()` for the partially managed last huge frame)
+    if sw is not None and HO in dict(b.term(sw)["targets"]) and HO != TO:
+        targets_ = dict(b.term(sw)["targets"])
+        from cfg import reachable_from as _rf2
+        arm = _rf2(b, targets_[HO], stop={x for vv, x in targets_.items() if vv != HO} | {b.term(sw)["otherwise"]})
+        others = []
+        for bi2, t2 in b.calls():
+            if bi2 in arm and (callee_name(t2["callee"]) or "").endswith("Default>::default") and t2["dest"]["l"] == 0:
+                others.append(t2["span"])
+        for bi2, si2, st2 in b.stmts():
+            if bi2 in arm and st2["k"] == "assign" and st2["rv"]["k"] == "aggregate" and "Stats" in str(st2["rv"]["kind"].get("adt", "")):
+                c2 = T.canon(tm.rvalue(st2["rv"]))
+                if not (c2[0] == "agg" and len(c2[2]) == 3 and c2[2][0] == ENTRY):
+                    others.append(st2["span"])
+        rep.check(not others, rule, "stats_at|huge|single-answer", "the per-huge query always reports the entry's counter",
+                  "the per-huge-frame query has another result besides the entry's counter (e.g. an early default for the partially "
+                  "managed last huge frame): its free frames are not reported", others[0] if others else b.span)
     rep.check(huge_ok, rule, "stats_at|huge", "free_frames = entry.free(), free_huge = entry.free() / HUGE_FRAMES",
               "the huge-frame query does not report the counter of the frame's huge entry", b.span)
     # (c) tree: fold over the entries
